@@ -77,9 +77,9 @@ def run(rep, tier):
     cfgs = ["x86"] if tier == "quick" else ["x86", "arm", "wasm"]
     for cfg, prog in programs(cfgs):
         rep.set_cfg(cfg)
-        mono_rule(rep, prog, "C17.mono")
-        reject_rule(rep, prog, "C17.reject")
-        type_tables.t_types(rep, prog, "C17.table")
+        rep.call(mono_rule, rep, prog, "C17.mono")
+        rep.call(reject_rule, rep, prog, "C17.reject")
+        rep.call(type_tables.t_types, rep, prog, "C17.table")
     if tier == "thorough":
         rep.set_cfg("witness")
-        witness.report(rep, "C17.types", ["W4"])
+        rep.call(witness.report, rep, "C17.types", ["W4"])
